@@ -274,7 +274,12 @@ async def log_session(loop: vloop.VirtualLoop, ctx, tmpdir: str, idx: int) -> No
 
         port = air.add_port("18:006402")
         with serial_patched():
-            gwy = Gateway(port.name, config={"disable_discovery": True}, packet_log={"file_name": path})
+            # the three kinds of log file the library can be configured with: plain, rotated by size (a limit no
+            # session reaches - it is the handler that differs), rotated at midnight
+            log_mode = ("plain", "rotate_bytes", "rotate_backups")[(ctx.shard + idx) % 3]
+            log_cfg = {"file_name": path, **({"rotate_bytes": 50_000_000} if log_mode == "rotate_bytes" else {"rotate_backups": 3} if log_mode == "rotate_backups" else {})}
+            ctx.count(f"log.sessions.{log_mode}")
+            gwy = Gateway(port.name, config={"disable_discovery": True}, packet_log=log_cfg)
             gwy.add_msg_handler(lambda m: (first.append((m._pkt.dtm.isoformat(timespec="microseconds"), str(m._pkt))), live_pkts.append(m._pkt)))
             await gwy.start()
         gwy._vrf_port = port
@@ -340,6 +345,8 @@ async def log_session(loop: vloop.VirtualLoop, ctx, tmpdir: str, idx: int) -> No
         try:
             ok = (a == b) and (b == a) and str(a) == str(b)
             why = "compares unequal"
+            if ok and (a.comment or "").strip() != (b.comment or "").strip():
+                ok, why = False, f"comment {a.comment!r} read back as {b.comment!r} ({log_mode} log)"
         except Exception as err:  # noqa: BLE001
             ok, why = False, f"comparison raised {type(err).__name__}: {err}"[:120]
         if not ok:
